@@ -475,6 +475,19 @@ pub fn c06(cx: &mut Ctx) {
             if left > 0 && cx.rng.gen_bool(0.35) {
                 evs.push(json!({"e": "enq", "resp": rand_resp(&mut cx.rng, 8192)}));
                 left -= 1;
+            } else if cx.rng.gen_bool(0.12) {
+                // input arrives while output is pending: valid, malformed, partial, would-block
+                let bytes: Vec<u8> = match cx.rng.gen_range(0..5) {
+                    0 => b"this-is-not-http\r\n\r\n".to_vec(),
+                    1 => b"GET /in HTTP/1.1\r\n\r\n".to_vec(),
+                    2 => b"PUT /e HTTP/1.1\r\nExpect: 100-continue\r\nContent-Length: 3\r\n\r\n".to_vec(),
+                    3 => b"GET /part".to_vec(),
+                    _ => b"PUT /big HTTP/1.1\r\nContent-Length: 99999999\r\n\r\n".to_vec(),
+                };
+                evs.push(rd(&bytes));
+                if cx.rng.gen_bool(0.3) {
+                    evs.push(rd_err(libc::EAGAIN));
+                }
             } else {
                 let o = match cx.rng.gen_range(0..12) {
                     0 => json!({"k": "eintr"}),
@@ -521,6 +534,12 @@ pub fn c11(cx: &mut Ctx) {
             let ka = cx.rng.gen_range(0..3);
             let a_cuts = gram::random_cuts(&mut cx.rng, a_stream.len(), ka);
             let mut evs = reads(&gram::cut(&a_stream, &a_cuts));
+            if cx.rng.gen_bool(0.25) {
+                // a descriptor travels with (some read of) the rejected input
+                let k = cx.rng.gen_range(0..evs.len());
+                cx.next_tag += 1;
+                evs[k]["fds"] = json!([cx.next_tag]);
+            }
             // B
             let mut b = vec![];
             for _ in 0..cx.rng.gen_range(1..4) {
@@ -536,7 +555,7 @@ pub fn c11(cx: &mut Ctx) {
             let b_cuts = gram::random_cuts(&mut cx.rng, b.len(), kb);
             evs.extend(reads(&gram::cut(&b, &b_cuts)));
             let limit = if cx.rng.gen_bool(0.2) { cx.rng.gen_range(0..20) } else { 51200 };
-            let mut s = script(limit, &["c11", "res", "popped", "pending", "sent", "wres"], 0, evs, name);
+            let mut s = script(limit, &["c11", "res", "popped", "pending", "sent", "wres", "files", "fdleak"], 0, evs, name);
             s["drain_after_read"] = json!(true);
             cx.push(s);
         }
